@@ -80,6 +80,9 @@ def toStringNum (x : FV) : Str :=
       let d := shortestDigits m e
       (if s then [45] else []) ++ layout981 d.ds d.dp            -- 3, 5–10
 
+/-- ToNumber(ToString(x)): the identity on every double except that −0 prints as "0" (§9.8.1 step 2) -/
+def roundTrip (x : FV) : FV := if isZero x then zero else x
+
 /-! ### §15.7.4 -/
 
 /-- §9.4 ToInteger on a Number -/
@@ -337,6 +340,30 @@ def parseInt (s : Str) (radixArg : Arg) : FV :=
     | .num x => C05.Spec.toInt32 ⟨OttoVerif.PN.parseNumber⟩ (.f64 x)
   parseIntCore s r
 
+
+/-! ### §7.8.3 Numeric Literals (+ B.1.1 legacy octal) -/
+
+def isOctDigit (c : Nat) : Bool := 48 ≤ c ∧ c ≤ 55
+
+/-- the value of a source text that is exactly one NumericLiteral; `none` if it is not one -/
+def literalValue (s : Str) : Option FV :=
+  let dec : Option FV :=
+    if sInfinity.isPrefixOf s then none else
+    let ip := s.takeWhile isDigit
+    -- DecimalIntegerLiteral ::: 0 | NonZeroDigit DecimalDigits_opt
+    if ip.length > 1 ∧ ip.head? = some 48 then none else
+    match unsignedDecPrefix s with
+    | some d => if d.rest.isEmpty then some (mvRound false d.mant d.exp10) else none
+    | none => none
+  match s with
+  | 48 :: x :: hs =>
+    if x = 120 ∨ x = 88 then
+      (if !hs.isEmpty ∧ hs.all isHexDigit then some (ofRatParts false (hexValNat hs) 1) else none)
+    else if (x :: hs).all isOctDigit then                                   -- B.1.1 OctalIntegerLiteral
+      some (ofRatParts false ((x :: hs).foldl (fun n c => n * 8 + (c - 48)) 0) 1)
+    else dec
+  | _ => dec
+
 /-! ### deviation regions: decidable predicates over the REQUEST (never model ≠ spec) -/
 namespace Dev
 
@@ -483,6 +510,17 @@ def pfloat (s : Str) : List String :=
       | some d => if !d.inf ∧ isInf v then ["parseFloat_overflow"] else []
       | none => [])
    | none => [])
+
+def lit (s : Str) : List String :=
+  match s with
+  | 48 :: x :: hs =>
+    if (x = 120 ∨ x = 88) ∧ !hs.isEmpty ∧ hs.all isHexDigit ∧ hexValNat hs ≥ 2 ^ 63 then ["lit_hex_big"]
+    else if (x :: hs).all isOctDigit ∧ (x :: hs).foldl (fun n c => n * 8 + (c - 48)) 0 ≥ 2 ^ 63 then ["lit_octal_big"]
+    else []
+  | _ => []
+
+/-- ToString of an integer-kinded number Value -/
+def istr (i : Int) : List String := if i.natAbs > 2 ^ 53 then ["int_kind_tostring"] else []
 
 end Dev
 
